@@ -69,87 +69,66 @@ def run(ctx, col, tier):
 
     # ---------------- R-UNIF: table form
     d = repo.get_def(f"{NORM}.sort_nodes_")
-    asg, a, b, perm, x, y = destructure_sort_call(d)
-    x, y = resolve_local(d, x), resolve_local(d, y)
-    col.check(x is not None and col_role(x) == "id" and col_role(y) == "pid", "R-UNIF", d.qualname,
-              d.loc(asg), "topology argument is (id column, parent-id column)",
-              f"({norm_src(x) if x is not None else None}, {norm_src(y) if y is not None else None})",
-              "renumbering is not called with (ids, parent ids)", stmt="topology-arg")
+    col.text_group("R-UNIF", d.qualname, d, [
+        ("topology argument is (id column, parent-id column)",
+         ["ids, pids = df[names.id].to_numpy(), df[names.pid].to_numpy()"], "topology-arg"),
+        ("one renumbering call yields the new topology and the row index",
+         ["(new_ids, new_pids), indices = sort_nodes_impl((ids, pids))"], "call"),
+        ("every column of the table (df.columns: extra columns included) is permuted by that row index, detached from the old row labels",
+         ["for col in df.columns: df[col] = df[col][indices].to_numpy()",
+          "for col in df.columns: df[col] = df[col].to_numpy()[indices]"], "gather"),
+        ("id / parent-id columns are overwritten by the new topology",
+         ["df[names.id], df[names.pid] = new_ids, new_pids"], "overwrite"),
+    ], fixed=("df", "names", "sort_nodes_impl"))
+    # the permutation must cover the whole key set: a literal / names-derived subset drops the extra columns
     loops = [n for n in own_nodes(d) if isinstance(n, ast.For)]
-    ok, txt = False, ""
-    if len(loops) == 1:
-        lp = loops[0]
-        txt = norm_src(lp)
-        cv = lp.target.id if isinstance(lp.target, ast.Name) else None
-        body = [s for s in lp.body if isinstance(s, ast.Assign)]
-        ok = norm_src(lp.iter) == "df.columns" and len(lp.body) == 1 and len(body) == 1 \
-            and norm_src(body[0].targets[0]) == f"df[{cv}]" \
-            and any(isinstance(s, ast.Subscript) and norm_src(s.slice) == perm
-                    and norm_src(s.value) == f"df[{cv}]" for s in ast.walk(body[0].value)) \
-            and "to_numpy" in norm_src(body[0].value)
-    col.check(ok, "R-UNIF", d.qualname, d.loc(loops[0]) if loops else d.loc(),
-              "every column of the table (df.columns, extra columns included) is permuted by the "
-              "same index, detached from the old row labels", txt,
-              "the permutation is not applied to all of df.columns with the renumbering's index",
-              stmt="gather")
-    after = [n for n in own_nodes(d) if isinstance(n, ast.Assign) and isinstance(n.targets[0], ast.Tuple)
-             and norm_src(n.value) == f"({a}, {b})"]
-    ok = len(after) == 1 and [col_role(t) for t in after[0].targets[0].elts] == ["id", "pid"] \
-        and after[0].lineno > loops[0].lineno if loops else False
-    col.check(ok, "R-UNIF", d.qualname, d.loc(after[0]) if after else d.loc(),
-              "id / parent-id columns are overwritten by the new topology after the gather",
-              norm_src(after[0]) if after else "", "ids/pids are not replaced by (new_ids, new_pids)",
-              stmt="overwrite")
-
+    for lp in loops:
+        if any(isinstance(x, ast.Subscript) and "df" in names_in(x) for x in ast.walk(lp)):
+            it = norm_src(lp.iter)
+            if it != "df.columns" and ("names" in names_in(lp.iter) or isinstance(lp.iter, (ast.List, ast.Tuple))):
+                col.bad("R-UNIF", d.qualname, d.loc(lp), "the permutation covers every column of the table",
+                        f"the row permutation runs over `{it}` only: columns outside it (extra columns) keep their old row order "
+                        f"and end up on the wrong nodes", stmt="gather-keys", definite=True)
     # ---------------- R-UNIF: tree form
     t = repo.get_def(f"{TU}._sort_tree")
-    asg, a, b, perm, x, y = destructure_sort_call(t)
-    col.check(x is not None and norm_src(x) == "tree.id()" and norm_src(y) == "tree.pid()", "R-UNIF",
-              t.qualname, t.loc(asg), "topology argument is (tree.id(), tree.pid())",
-              f"({norm_src(x) if x is not None else None}, {norm_src(y) if y is not None else None})",
-              "renumbering is not called with (ids, parent ids)", stmt="topology-arg")
-    comps = [n for n in own_nodes(t) if isinstance(n, ast.DictComp)]
-    ok, txt = False, ""
-    if len(comps) == 1:
-        dc = comps[0]
-        g = dc.generators[0]
-        txt = norm_src(dc)
-        kv = g.target.id if isinstance(g.target, ast.Name) else None
-        ok = norm_src(g.iter) in ("tree.ndata", "tree.ndata.keys()", "tree.keys()") and not g.ifs \
-            and norm_src(dc.key) == kv and norm_src(dc.value) == f"tree.ndata[{kv}][{perm}]"
-        par = repo.parent(dc)
-        ok = ok and isinstance(par, ast.Assign) and norm_src(par.targets[0]) == "tree.ndata"
-    col.check(ok, "R-UNIF", t.qualname, t.loc(comps[0]) if comps else t.loc(),
-              "every key of tree.ndata is permuted by the same index into a new dict", txt,
-              "the permutation is not applied to every key of tree.ndata with the renumbering's index",
-              stmt="gather")
-    ups = [n for n in own_nodes(t) if isinstance(n, ast.Call) and norm_src(n.func) == "tree.ndata.update"]
-    ok = len(ups) == 1 and {k.arg: norm_src(k.value) for k in ups[0].keywords} == {"id": a, "pid": b} \
-        and comps and ups[0].lineno > comps[0].lineno
-    col.check(ok, "R-UNIF", t.qualname, t.loc(ups[0]) if ups else t.loc(),
-              "id / pid are overwritten by the new topology after the gather",
-              norm_src(ups[0]) if ups else "", "ids/pids are not replaced by (new_ids, new_pids)",
-              stmt="overwrite")
+    col.text_group("R-UNIF", t.qualname, t, [
+        ("one renumbering call on (tree.id(), tree.pid()) yields the new topology and the row index",
+         ["(new_ids, new_pids), id_map = sort_nodes_impl((tree.id(), tree.pid()))"], "call"),
+        ("every key of tree.ndata is permuted by that row index into a new dict",
+         ["tree.ndata = {k: tree.ndata[k][id_map] for k in tree.ndata}",
+          "tree.ndata = {k: v[id_map] for k, v in tree.ndata.items()}"], "gather"),
+        ("id / pid are overwritten by the new topology", ["tree.ndata.update(id=new_ids, pid=new_pids)"], "overwrite"),
+    ], fixed=("tree", "sort_nodes_impl"))
+    for n in own_nodes(t):
+        if isinstance(n, (ast.DictComp, ast.For)):
+            g = n.generators[0] if isinstance(n, ast.DictComp) else n
+            it = norm_src(g.iter)
+            if "ndata" not in it and ("names" in it or "cols" in it or isinstance(g.iter, (ast.List, ast.Tuple))) \
+                    and any(isinstance(x, ast.Subscript) and norm_src(x.value).endswith("ndata") for x in ast.walk(n)):
+                col.bad("R-UNIF", t.qualname, t.loc(n), "the permutation covers every key of the tree",
+                        f"the row permutation runs over `{it}` only: keys outside it (extra per-node columns) keep their old "
+                        f"row order and end up on the wrong nodes", stmt="gather-keys", definite=True)
     st = repo.get_def(f"{TU}.sort_tree")
-    rets = [n for n in own_nodes(st) if isinstance(n, ast.Return)]
-    ok = len(rets) == 1 and norm_src(rets[0].value) == "_sort_tree(tree.copy())"
-    col.check(ok, "R-UNIF", st.qualname, st.loc(), "sort_tree sorts a copy",
-              norm_src(rets[0].value) if rets else "", "sort_tree does not sort a copy of its input",
-              stmt="copy")
-    # read_swc(sort_nodes=True) -> sort_nodes_(df)
+    col.text_group("R-UNIF", st.qualname, st, [("sort_tree sorts a copy", ["return _sort_tree(tree.copy())"], "copy")], fixed=("_sort_tree", "tree"))
     rs = repo.get_def("swcgeom.core.swc_utils.io.read_swc")
-    ok = any(isinstance(n, ast.If) and norm_src(n.test) == "sort_nodes"
-             and any(isinstance(c, ast.Call) and dotted(c.func) == "sort_nodes_" and norm_src(c.args[0]) == "df"
-                     for s in n.body for c in ast.walk(s)) for n in own_nodes(rs))
-    col.check(ok, "R-UNIF", rs.qualname, rs.loc(), "read_swc(sort_nodes=True) renumbers the table "
-              "it read", "", "the sort_nodes option does not call sort_nodes_(df)", stmt="read-sort")
-    # copying wrapper
+    col.text_group("R-UNIF", rs.qualname, rs, [
+        ("read_swc(sort_nodes=True) renumbers the table it read, as read (row labels 0..n-1)", ["if sort_nodes: sort_nodes_(df)\nelif reset_index: reset_index_(df)"], "read-sort")],
+        fixed=("sort_nodes", "reset_index", "sort_nodes_", "reset_index_", "df"))
+    # the label-based gather `df[col][indices]` is right only while the row labels are 0..n-1: nothing may reorder
+    # or relabel the frame between parsing and sorting
+    muts = [c for c in own_nodes(rs) if isinstance(c, ast.Call) and isinstance(c.func, ast.Attribute)
+            and c.func.attr in ("sort_values", "sort_index", "sample", "reindex", "set_index") and "df" in names_in(c.func.value)]
+    for c in muts:
+        keeps = any(k.arg == "ignore_index" and isinstance(k.value, ast.Constant) and k.value.value is True for k in c.keywords)
+        if not keeps:
+            col.bad("R-UNIF", rs.qualname, rs.loc(c), "rows keep their labels 0..n-1 until the table is renumbered",
+                    f"`{norm_src(c)[:80]}` reorders the rows but keeps their old labels; the renumbering then gathers columns by "
+                    f"label (`df[col][indices]`), i.e. from the wrong rows", stmt="relabel", definite=True)
     ca = repo.get_def(f"{NORM}._copy_and_apply")
-    body = [norm_src(s) for s in ca.node.body]
-    ok = body == ["df = df.copy()", "fn(df, *args, **kwargs)", "return df"]
-    col.check(ok, "R-UNIF", ca.qualname, ca.loc(), "the non-underscore forms work on a copy",
-              "; ".join(body), "copy-and-apply wrapper does not copy, apply and return the copy",
-              stmt="copy-apply")
+    col.text_group("R-UNIF", ca.qualname, ca, [
+        ("the non-underscore forms work on a copy", ["df = df.copy()"], "copy-apply-1"),
+        ("... apply the in-place form to the copy", ["fn(df, *args, **kwargs)"], "copy-apply-2"),
+        ("... and return the copy", ["return df"], "copy-apply-3")], fixed=("fn", "args", "kwargs"))
 
     col.guard(counter_rule, ctx, col)
 
@@ -162,154 +141,74 @@ def counter_rule(ctx, col):
     R = "R-COUNTER"
     d = repo.get_def(f"{NORM}.sort_nodes_impl")
     q = d.qualname
-    whiles = [n for n in own_nodes(d) if isinstance(n, ast.While)]
-    if len(whiles) != 1:
-        raise AnalysisError("anchor-vanished: the work-list loop of sort_nodes_impl")
-    loop = whiles[0]
-    # topology unpacking
-    unp = d.node.body[0] if not isinstance(d.node.body[0], ast.Expr) else d.node.body[1]
-    if not (isinstance(unp, ast.Assign) and isinstance(unp.targets[0], ast.Tuple)
-            and norm_src(unp.value) == "topology"):
-        raise AnalysisError("anchor-vanished: `old_ids, old_pids = topology`")
-    ids, pids = [e.id for e in unp.targets[0].elts]
-    # pop
-    pops = [n for n in ast.walk(loop) if isinstance(n, ast.Call) and isinstance(n.func, ast.Attribute)
-            and n.func.attr == "pop" and norm_src(n.func.value) in names_in(loop.test)]
-    if len(pops) != 1 or not isinstance(repo.parent(pops[0]), ast.Assign):
-        raise AnalysisError("anchor-vanished: `old_id, new_pid = s.pop()`")
-    stack = norm_src(pops[0].func.value)
-    pst = repo.parent(pops[0])
-    cur_old, cur_pid = [e.id for e in pst.targets[0].elts]
-    col.check(not pops[0].args and loop.body[0] is pst, R, q, d.loc(pops[0]),
-              "one frame popped per iteration, first thing in the body", norm_src(pst),
-              "pop is not the unconditional first statement / not LIFO", stmt="pop")
-    # counter: the name incremented in the loop
-    incs = []
-    for s in ast.walk(loop):
-        if isinstance(s, ast.AugAssign) and isinstance(s.target, ast.Name):
-            incs.append((s, s.target.id, s.op, s.value))
-        elif isinstance(s, ast.Assign) and isinstance(s.targets[0], ast.Name) and isinstance(s.value, ast.BinOp) \
-                and isinstance(s.value.left, ast.Name) and s.value.left.id == s.targets[0].id:
-            incs.append((s, s.targets[0].id, s.value.op, s.value.right))
-    if len(incs) != 1:
-        col.bad(R, q, d.loc(loop), "exactly one counter update in the loop",
-                f"{len(incs)} updates: {[norm_src(i[0]) for i in incs]}", stmt="counter-updates")
-        return
-    inc, cnt, op, amount = incs[0]
-    ok = isinstance(op, ast.Add) and isinstance(amount, ast.Constant) and amount.value == 1 \
-        and inc in loop.body
-    col.check(ok, R, q, d.loc(inc), "the counter grows by exactly one per iteration, unconditionally",
-              norm_src(inc), f"`{norm_src(inc)}` is conditional, not +1, or decreases", stmt="counter-inc")
-    init = [n for n in d.node.body if isinstance(n, ast.Assign) and norm_src(n.targets[0]) == cnt]
-    ok = len(init) == 1 and isinstance(init[0].value, ast.Constant) and init[0].value.value == 0
-    col.check(ok, R, q, d.loc(init[0]) if init else d.loc(), "the counter starts at 0 (root gets id 0)",
-              norm_src(init[0]) if init else "", "counter does not start at 0", stmt="counter-init")
-    pos = {id(s): i for i, s in enumerate(loop.body)}
-    inc_i = pos.get(id(inc), -1)
-    # slot writes
-    writes = [s for s in loop.body if isinstance(s, ast.Assign) and isinstance(s.targets[0], ast.Subscript)
-              and norm_src(s.targets[0].slice) == cnt]
-    w_old = [s for s in writes if norm_src(s.value) == cur_old]
-    w_pid = [s for s in writes if norm_src(s.value) == cur_pid]
-    ok = len(w_old) == 1 and len(w_pid) == 1 and len(writes) == 2 and \
-        all(pos[id(s)] < inc_i for s in writes)
-    col.check(ok, R, q, d.loc(writes[0]) if writes else d.loc(loop),
-              "slot[counter] records the popped old id and its new parent id, before the increment",
-              "; ".join(norm_src(s) for s in writes),
-              "the new-id slot is not written exactly once with (old id, new parent) before the increment",
-              stmt="slot-writes")
-    id_map = norm_src(w_old[0].targets[0].value) if w_old else None
-    new_pids = norm_src(w_pid[0].targets[0].value) if w_pid else None
-    # children push
-    ext = [s for s in loop.body if isinstance(s, ast.Expr) and isinstance(s.value, ast.Call)
-           and norm_src(s.value.func) in (f"{stack}.extend", f"{stack}.append")]
-    ok, txt = False, ""
-    if len(ext) == 1 and norm_src(ext[0].value.func).endswith("extend") and \
-            isinstance(ext[0].value.args[0], ast.GeneratorExp):
-        ge = ext[0].value.args[0]
-        txt = norm_src(ge)
-        g = ge.generators[0]
-        sel = norm_src(g.iter)
-        ok = isinstance(ge.elt, ast.Tuple) and norm_src(ge.elt.elts[0]) == norm_src(g.target) \
-            and norm_src(ge.elt.elts[1]) == cnt and not g.ifs \
-            and sel == f"{ids}[{pids} == {cur_old}]" and pos[id(ext[0])] < inc_i
-    col.check(ok, R, q, d.loc(ext[0]) if ext else d.loc(loop),
-              "children = rows whose parent id equals the popped id; each is pushed with the "
-              "counter's current value as its new parent, before the increment", txt,
-              "children are not pushed as (child id, current new id) for ids[pids == popped id] "
-              "before the increment (a parent id >= child id or a lost node becomes possible)",
-              stmt="children-push")
-    # initial frame
-    sinit = [n for n in d.node.body if isinstance(n, (ast.Assign, ast.AnnAssign))
-             and norm_src(n.targets[0] if isinstance(n, ast.Assign) else n.target) == stack]
-    ok = len(sinit) == 1 and isinstance(sinit[0].value, ast.List) and len(sinit[0].value.elts) == 1 \
-        and isinstance(sinit[0].value.elts[0], ast.Tuple) \
-        and norm_src(sinit[0].value.elts[0].elts[1]) == "-1"
-    root_e = resolve_local(d, sinit[0].value.elts[0].elts[0]) if ok else None
-    ok = ok and norm_src(root_e) == f"{ids}[({pids} == -1).argmax()]"
-    col.check(ok, R, q, d.loc(sinit[0]) if sinit else d.loc(), "work list starts with (the root's "
-              "id, parent -1)", norm_src(sinit[0]) if sinit else "",
-              "initial frame is not (id of the row whose parent is -1, -1)", stmt="init-frame")
-    # allocation of outputs sized like the input
-    for nm, what in ((id_map, "new-id -> old-id map"), (new_pids, "new parent ids")):
-        a = [n for n in d.node.body if isinstance(n, ast.Assign) and norm_src(n.targets[0]) == nm]
-        ok = len(a) == 1 and isinstance(a[0].value, ast.Call) and dotted(a[0].value.func) in (
-            "np.full_like", "np.zeros_like", "np.empty_like") and norm_src(a[0].value.args[0]) in (ids, pids)
-        col.check(ok, R, q, d.loc(a[0]) if a else d.loc(), f"{what} is a fresh array of the input's length",
-                  norm_src(a[0]) if a else "", f"{nm} is not allocated like the input", stmt=f"alloc:{nm}")
-    # outputs, by role: return ((NEW_IDS, NEW_PIDS), INDEX)
-    tail = [n for n in d.node.body if d.node.body.index(n) > d.node.body.index(loop)]
-    src = {norm_src(n.targets[0]): n for n in tail if isinstance(n, ast.Assign)}
+    items = [
+        ("topology is unpacked as (ids, parent ids)", ["old_ids, old_pids = topology"], "unpack"),
+        ("single-root premise is asserted", ["assert np.count_nonzero(old_pids == -1) == 1, _any",
+                                             "assert np.count_nonzero(old_pids == -1) == 1"], "assert-root"),
+        ("new-id -> old-id map is a fresh array of the input's length", ["id_map = np.full_like(old_ids, fill_value=_any)", "id_map = np.empty_like(old_ids)", "id_map = np.zeros_like(old_ids)"], "alloc-map"),
+        ("new parent ids are a fresh array of the input's length", ["new_pids = np.full_like(old_ids, fill_value=_any)", "new_pids = np.empty_like(old_ids)", "new_pids = np.zeros_like(old_ids)", "new_pids = np.full_like(old_pids, fill_value=_any)"], "alloc-pids"),
+        ("the counter starts at 0 (the root gets id 0)", ["new_id = 0"], "counter-init"),
+        ("the work list starts with (the root's id, parent -1)",
+         ["first_root = old_ids[(old_pids == -1).argmax()]"], "first-root"),
+        ("... as its only frame", ["s = [(first_root, -1)]", "s: list[tuple[npt.NDArray[np.int32], int]] = [(first_root, -1)]"], "init-frame"),
+        ("one frame popped per iteration (LIFO)", ["old_id, new_pid = s.pop()"], "pop"),
+        ("slot[counter] records the popped old id", ["id_map[new_id] = old_id"], "slot-old"),
+        ("slot[counter] records its new parent id", ["new_pids[new_id] = new_pid"], "slot-pid"),
+        ("children = rows whose parent id equals the popped id, each pushed with the counter's current value as its new parent",
+         ["s.extend(((j, new_id) for j in old_ids[old_pids == old_id]))",
+          "for j in old_ids[old_pids == old_id]: s.append((j, new_id))"], "children-push"),
+        ("the counter grows by exactly one per iteration", ["new_id = new_id + 1", "new_id += 1"], "counter-inc"),
+        ("lookup maps old id -> old row position (ids are never used as positions)",
+         ["id2idx = dict(zip(old_ids, range(len(old_ids))))", "id2idx = {old: i for i, old in enumerate(old_ids)}"], "id2idx"),
+        ("row index = position of the old id stored in each new slot",
+         ["indices = np.array([id2idx[i] for i in id_map], dtype=_any)", "indices = np.array([id2idx[i] for i in id_map])"], "indices"),
+        ("new ids are 0..n-1", ["new_ids = np.arange(len(new_pids))", "new_ids = np.arange(len(id_map))", "new_ids = np.arange(len(old_ids))"], "new-ids"),
+        ("returns ((new ids, new parent ids), row index)", ["return (new_ids, new_pids), indices"], "return"),
+    ]
+    col.text_group(R, q, d, items, fixed=("topology",))
+    from .. import match
+    found = dict(zip([it[2] for it in items], match.find_group(d.node.body, [it[1] for it in items], ("topology",))))
+    # the row index must go through the id -> position lookup: using the ids themselves as positions is
+    # right only for ids 0..n-1 in file order
     rets = [n for n in own_nodes(d) if isinstance(n, ast.Return)]
-    rv = rets[0].value if len(rets) == 1 else None
-    shape = isinstance(rv, ast.Tuple) and len(rv.elts) == 2 and isinstance(rv.elts[0], ast.Tuple) \
-        and len(rv.elts[0].elts) == 2 and all(isinstance(e, ast.Name) for e in rv.elts[0].elts) \
-        and isinstance(rv.elts[1], ast.Name)
-    if not shape:
-        col.unresolved(R, q, d.loc(rets[0]) if rets else d.loc(), "return shape", "not ((ids, pids), index)",
-                       stmt="return")
-        return
-    r_ids, r_pids, r_idx = rv.elts[0].elts[0].id, rv.elts[0].elts[1].id, rv.elts[1].id
-    col.check(r_pids == new_pids, R, q, d.loc(rets[0]), "returned parent ids are the array filled in the loop",
-              norm_src(rv), f"returns `{r_pids}` as parent ids, the loop fills `{new_pids}`", stmt="return")
-    ix = src.get(r_idx)
-    lc = None
-    if ix is not None:
-        for n in ast.walk(ix.value):
-            if isinstance(n, ast.ListComp) and isinstance(n.elt, ast.Subscript):
-                lc = n
-    if lc is None and ix is not None and id_map in names_in(ix.value):
-        col.bad(R, q, d.loc(ix), "row index = position of the old id stored in each new slot "
-                "(ids are never used as positions)",
-                f"`{norm_src(ix.value)}` uses the old ids themselves as row positions (only right when "
-                f"ids are 0..n-1 in file order)", stmt="indices")
-    elif lc is None:
-        col.unresolved(R, q, d.loc(ix) if ix is not None else d.loc(), "row index", "not a list comprehension of lookups",
-                       stmt="indices")
-    else:
-        lookup = norm_src(lc.elt.value)
-        m = src.get(lookup)
-        ok = m is not None and norm_src(m.value) == f"dict(zip({ids}, range(len({ids}))))"
-        col.judge(m is not None and isinstance(m.value, ast.Call), ok, R, q, d.loc(m) if m is not None else d.loc(),
-                  "lookup maps old id -> old row position", norm_src(m.value) if m is not None else "",
-                  f"`{norm_src(m.value) if m is not None else None}` is not dict(zip(ids, range(n)))", stmt="id2idx")
-        ok = norm_src(lc.elt.slice) == norm_src(lc.generators[0].target) and norm_src(lc.generators[0].iter) == id_map \
-            and not lc.generators[0].ifs
-        col.check(ok, R, q, d.loc(ix), "row index = position of the old id stored in each new slot "
-                  "(ids are never used as positions)", norm_src(ix.value),
-                  f"row index `{norm_src(lc)}` does not look up every entry of {id_map}", stmt="indices")
-    ni = src.get(r_ids)
-    ok = ni is not None and norm_src(ni.value) in (f"np.arange(len({new_pids}))", f"np.arange(len({id_map}))",
-                                                   f"np.arange(len({ids}))", f"np.arange({ids}.shape[0])")
-    col.judge(ni is not None and isinstance(ni.value, ast.Call), ok, R, q, d.loc(ni) if ni is not None else d.loc(),
-              "new ids are 0..n-1", norm_src(ni.value) if ni is not None else "",
-              f"new ids `{norm_src(ni.value) if ni is not None else None}` are not arange(n)", stmt="new-ids")
-    asserts = [n for n in d.node.body if isinstance(n, ast.Assert)]
-    ok = any(norm_src(a.test) == f"np.count_nonzero({pids} == -1) == 1" for a in asserts)
-    col.check(ok, R, q, d.loc(asserts[0]) if asserts else d.loc(), "single-root premise is asserted",
-              "", "no single-root assertion", stmt="assert-root")
-    t = norm_src(loop.test)
-    ok = t in (f"len({stack}) != 0", f"len({stack}) > 0", stack) and \
-        not any(isinstance(x, (ast.Break, ast.Continue, ast.Return)) for x in ast.walk(loop))
-    col.check(ok, R, q, d.loc(loop), "loop runs until the work list is empty", t,
-              "early exit from the renumbering loop", stmt="loop-cond")
+    if found["indices"][0] == match.OTHER and found["slot-old"][0] == match.SAME and len(rets) == 1 \
+            and isinstance(rets[0].value, ast.Tuple) and len(rets[0].value.elts) == 2:
+        idx_e = rets[0].value.elts[1]
+        slot = found["slot-old"][1]
+        mapname = slot.targets[0].value.id if isinstance(slot, ast.Assign) and isinstance(slot.targets[0], ast.Subscript) \
+            and isinstance(slot.targets[0].value, ast.Name) else None
+        defs = [n for n in d.node.body if isinstance(n, ast.Assign) and isinstance(idx_e, ast.Name) and norm_src(n.targets[0]) == idx_e.id]
+        e = defs[-1].value if defs else idx_e
+        uses_lookup = any(isinstance(x, ast.Subscript) and isinstance(x.value, ast.Name) and x.value.id != mapname
+                          and any(isinstance(y, ast.Name) for y in ast.walk(x.slice)) for x in ast.walk(e)
+                          if isinstance(x, ast.Subscript) and not isinstance(x.slice, ast.Slice))
+        direct = mapname is not None and any(isinstance(x, ast.Name) and x.id == mapname for x in ast.walk(e))
+        searchsorted = any(isinstance(x, ast.Call) and (dotted(x.func) or "").endswith("searchsorted") and not any(k.arg == "sorter" for k in x.keywords)
+                           for x in ast.walk(e))
+        if searchsorted:
+            col.bad(R, q, d.loc(defs[-1]) if defs else d.loc(rets[0]), "row index = position of the old id stored in each new slot",
+                    f"`{norm_src(e)[:80]}`: np.searchsorted without a sorter finds positions only in an ascending id column; for rows in any "
+                    f"other order the columns are gathered from the wrong rows", stmt="indices", definite=True)
+        elif direct and not uses_lookup:
+            col.bad(R, q, d.loc(defs[-1]) if defs else d.loc(rets[0]), "row index = position of the old id stored in each new slot",
+                    f"`{norm_src(e)[:80]}` uses the old ids themselves as row positions (right only when ids are 0..n-1 in file order)",
+                    stmt="indices", definite=True)
+    # order inside the loop body: slot writes and child pushes read the counter before its increment
+    if all(found[k][0] == match.SAME for k in ("slot-old", "slot-pid", "children-push", "counter-inc")):
+        def top(n):
+            while n is not None and not isinstance(repo.parent(n), ast.While):
+                n = repo.parent(n)
+            return n
+        w = repo.parent(top(found["counter-inc"][1]))
+        if isinstance(w, ast.While):
+            pos = {k: w.body.index(top(found[k][1])) for k in ("slot-old", "slot-pid", "children-push", "counter-inc")
+                   if top(found[k][1]) in w.body}
+            if len(pos) == 4:
+                col.check(max(pos["slot-old"], pos["slot-pid"], pos["children-push"]) < pos["counter-inc"], R, q, d.loc(found["counter-inc"][1]),
+                          "the counter is read for the slot and as the children's new parent before its increment", "",
+                          "the counter is incremented before it is recorded: slots are shifted by one / children get a parent id equal to their own",
+                          stmt="order", definite=True)
+                inc_unconditional = top(found["counter-inc"][1]) is found["counter-inc"][1] or isinstance(found["counter-inc"][1], (ast.Assign, ast.AugAssign))
+                early = [x for x in ast.walk(w) if isinstance(x, (ast.Break, ast.Continue, ast.Return))]
+                col.check(not early, R, q, d.loc(early[0]) if early else d.loc(w), "every popped frame gets a slot: no early exit / skip in the loop", "",
+                          f"`{norm_src(early[0]) if early else ''}` skips or ends the renumbering loop", stmt="loop-exit", definite=True)
